@@ -134,6 +134,46 @@ def check(rep, F, tier, replay=None):
             rep.violation("REPLACE", "TxInputsBuilder::push_input|stale-script-witness", "push_input overwrites the registration of an outpoint that is already in the builder but never removes the outpoint from required_witnesses.scripts: after add_plutus_script_input(A, x) and add_plutus_script_input(B, x) both scripts, both datums and two Spend redeemers with the same index are emitted for one input", {})
     from ruleutil import cert_cred_rule
     cert_cred_rule(rep, F)
+    # EMIT-all: the collection a builder emits has one entry per entry of the container its redeemer indices are counted over
+    import hirq as H_
+    from ruleutil import hir_must as _must
+    rep.rule("EMIT-all", "in every builder whose get_plutus_witnesses numbers the entries of a container by position (enumerate), a `build` that walks the same container with a loop adds one entry to the emitted collection on every path of every iteration (no conditional skip): position i of the witnesses is position i of what is emitted")
+    n_em = 0
+    for fid_, h_ in F.hir.items():
+        if "/tests/" in h_["file"] or "src/builders/" not in h_["file"] or fid_.rsplit("::", 1)[-1] not in ("build", "build_unchecked"):
+            continue
+        owner = fid_.rsplit("::", 1)[0]
+        sib = owner + "::get_plutus_witnesses"
+        if sib not in F.hir:
+            continue
+        enum_roots = set()
+        for n_ in H_.walk(F.hir[sib]["body"]):
+            if n_[0] == "for":
+                # the container walked with enumerate(): self.<field>
+                for m_ in H_.walk(n_[3]):
+                    if m_[0] == "field" and H_.path_str(m_) and H_.path_str(m_).startswith("self."):
+                        enum_roots.add(H_.path_str(m_))
+        body_ = h_["body"]
+        outer_lets = set()
+        if body_[0] == "block":
+            for st_ in body_[2]:
+                if st_[0] == "let":
+                    outer_lets |= set(H_.pat_bindings(st_[2]))
+        for st_ in (body_[2] if body_[0] == "block" else []):
+            e_ = st_[2] if st_[0] != "let" else None
+            if not (H_.is_node(e_) and e_[0] == "for"):
+                continue
+            roots_ = {H_.path_str(m_) for m_ in H_.walk(e_[3]) if m_[0] == "field" and (H_.path_str(m_) or "").startswith("self.")}
+            if not (roots_ & enum_roots):
+                continue
+            n_em += 1
+            rep.inst("EMIT-all")
+
+            def ev_(x):
+                return x[0] == "mcall" and x[2] in ("insert", "push", "add", "add_move") and H_.path_str(H_.strip(x[4])) in outer_lets
+            if not _must(e_[4], ev_):
+                rep.violation("EMIT-all", F.key(fid_), "%s walks %s but can finish an iteration without adding an entry to the collection it returns, while %s::get_plutus_witnesses numbers every entry of that container: after a skipped entry every later redeemer index points one position too far (e.g. a policy whose amounts cancel out is dropped from the mint but still counted)" % (F.key(fid_), sorted(roots_ & enum_roots), owner.rsplit("::", 1)[-1]), {})
+    rep.floor("builder build loops over an index-numbered container", 3, n_em)
     return rep.finish(
         EXPLANATION,
         ["the body field of each purpose is built from the same container (BODY-origin rule of C18)", "enumerate() counts from 0 in iteration order (std)",
